@@ -24,7 +24,13 @@ S == Cat[sid].s
 Init == /\ sid \in (IF Sids = {} THEN 1..Len(Cat) ELSE Sids \cap 1..Len(Cat))
         /\ p = <<>>
         /\ mode \in {"bytes", "vals"}
-Next == /\ mode = "bytes" /\ Len(p) < MaxLen
+\* Longest byte strings visited for schema s: MaxLen; but a schema none of whose encodings fits into MaxLen bytes
+\* only sees the strings of length <= 3 (all rejected), and a fixed-width schema sees nothing beyond one byte more
+\* than its width (what follows an encoding is never looked at: PrefixOnly).
+Limit(s) == IF MinWidth(s) > MaxLen THEN 3
+            ELSE IF FixedWidth(s) >= 0 /\ FixedWidth(s) + 1 < MaxLen THEN FixedWidth(s) + 1
+            ELSE MaxLen
+Next == /\ mode = "bytes" /\ Len(p) < Limit(S)
         /\ \E a \in Alphabet : p' = Append(p, a)
         /\ UNCHANGED <<sid, mode>>
 Spec == Init /\ [][Next]_vars
@@ -56,7 +62,7 @@ SumZW(fs, i) == IF i > Len(fs) THEN 0 ELSE ZW(fs[i]) + SumZW(fs, i + 1)
 ZW(s) == CASE s.k \in {"slice", "arr"} -> (IF MinWidth(s.e) = 0 THEN 1 ELSE 0) + ZW(s.e)
            [] s.k = "map" -> ZW(s.key) + ZW(s.val)
            [] s.k = "struct" -> SumZW(s.f, 1)
-           [] s.k = "opt" -> ZW(s.t)
+           [] s.k \in {"opt", "eptr"} -> ZW(s.t)
            [] s.k = "iface" -> SumZW([j \in 1..Len(s.alts) |-> s.alts[j].t], 1)
            [] OTHER -> 0
 \* C02: what a decoder builds is bounded by what it consumed, not by a length field
@@ -107,7 +113,7 @@ WellFormed(s) ==
   CASE s.k \in {"slice", "arr"} -> (MinWidth(s.e) > 0 \/ s.lp = 1) /\ WellFormed(s.e)
     [] s.k = "map" -> MinWidth(s.key) > 0 /\ WellFormed(s.key) /\ WellFormed(s.val)
     [] s.k = "struct" -> \A i \in 1..Len(s.f) : WellFormed(s.f[i])
-    [] s.k = "opt" -> WellFormed(s.t)
+    [] s.k \in {"opt", "eptr"} -> WellFormed(s.t)
     [] s.k = "iface" -> \A j \in 1..Len(s.alts) :
                            /\ WellFormed(s.alts[j].t)
                            /\ s.alts[j].t.code = [w |-> s.w, c |-> s.alts[j].c]
